@@ -528,6 +528,10 @@ class Interp:
                     res |= (tn == 'builtin int' and isinstance(v, int) and not isinstance(v, bool)) or (tn == 'builtin str' and isinstance(v, str)) \
                         or (tn == 'builtin list' and isinstance(v, list)) or (tn == 'builtin bool' and isinstance(v, bool)) or (tn == 'builtin tuple' and isinstance(v, tuple))
                 return res
+            if n == 'slice' and 1 <= len(args) <= 3 and not kwargs:
+                if any(isinstance(a, Sym) for a in args):
+                    raise Unknown('slice of opaque bounds')
+                return slice(*args)
             if n == 'len' and len(args) == 1:
                 if isinstance(args[0], (list, tuple, str, dict, EnumClass, range)):
                     return len(args[0])
